@@ -2,6 +2,7 @@ package sym
 
 import (
 	"fmt"
+	"os"
 	"go/types"
 	"math"
 	"strconv"
@@ -32,6 +33,9 @@ func RegisterCore(p *Program) {
 		t := in.fresh(labelOf(a[0]), BV(64))
 		in.nondet = append(in.nondet, NondetVar{labelOf(a[0]), "int", []*Term{t}})
 		lo, hi := a[1].(*Term), a[2].(*Term)
+		if lo.IsConst() {
+			in.model[t.ID] = lo.Val
+		}
 		c := ts.And(ts.Sle(lo, t), ts.Sle(t, hi))
 		if !in.feasible(c) {
 			panic(pathEnd{"assume", "vpInt empty range"})
@@ -74,12 +78,17 @@ func RegisterCore(p *Program) {
 		if c.IsFalse() {
 			panic(pathEnd{"assume", ""})
 		}
-		if in.modelValid && in.evalBool(c) {
+		if in.compsValid(c) && in.evalBool(c) {
 			in.assume(c)
 			return nil
 		}
-		if !in.feasible(c) {
+		switch in.checkWith(c) {
+		case Unsat:
 			panic(pathEnd{"assume", ""})
+		case Sat:
+			in.fetchFor(c)
+		default:
+			in.incomplete("solver unknown at assume")
 		}
 		in.assume(c)
 		return nil
@@ -96,13 +105,8 @@ func RegisterCore(p *Program) {
 		if _, seen := in.P.coverSeen.LoadOrStore(in.unit+"/"+tag, true); seen {
 			return nil
 		}
-		// PC is satisfiable by construction; fetch a witness
-		if in.sol.Check() == Sat {
-			in.res.Covers[tag] = in.modelValues()
-			in.fetchModel()
-		} else {
-			in.incomplete("cover " + tag + " not sat")
-		}
+		// PC is satisfiable by construction; a witness is read off the cached component models
+		in.res.Covers[tag] = in.modelValues()
 		return nil
 	}
 	I["vp:vpAnd"] = func(in *Interp, fr *frame, a []Value) Value { return in.ts.And(a[0].(*Term), a[1].(*Term)) }
@@ -115,7 +119,23 @@ func RegisterCore(p *Program) {
 		return in.strEq(Str{in.sliceBytesOrNil(x)}, Str{in.sliceBytesOrNil(y)})
 	}
 	I["vp:vpStrEq"] = func(in *Interp, fr *frame, a []Value) Value { return in.strEq(a[0].(Str), a[1].(Str)) }
-	I["vp:vpNote"] = func(in *Interp, fr *frame, a []Value) Value { return nil }
+	I["vp:vpNote"] = func(in *Interp, fr *frame, a []Value) Value {
+		if in.cfg.Debug {
+			s := ""
+			switch x := a[1].(type) {
+			case Iface:
+				if x.T != nil && in.hasMethod(x.T, "Error") {
+					s = in.callStringMethod(fr, x, "Error").Show()
+				} else {
+					s = showValue(x)
+				}
+			default:
+				s = showValue(x)
+			}
+			fmt.Fprintf(os.Stderr, "NOTE %s: %s\n", labelOf(a[0]), s)
+		}
+		return nil
+	}
 	I["vp:vpSchedExplore"] = func(in *Interp, fr *frame, a []Value) Value {
 		in.sched.explore = a[0].(*Term).IsTrue()
 		return nil
@@ -467,20 +487,39 @@ func (in *Interp) decimal(t *Term, signed bool) Str {
 		}
 		pow *= 10
 	}
-	// relational encoding: fresh digits d_i with Horner(d) = v
+	// relational encoding: fresh digits d_i with Horner(d) = v, in just enough bits
+	w := 64
+	if nd <= 18 {
+		w = 4*nd + 4 // 10^nd < 2^(4nd); intermediate Horner values stay below 10^nd
+		if w > 64 {
+			w = 64
+		}
+	}
 	ds := make([]*Term, nd)
-	acc := ts.Const(64, 0)
+	acc := ts.Const(w, 0)
 	var cs []*Term
+	// model hint: the digits of v's current model value keep the cached model valid
+	hint := ""
+	if in.compsValid(v) {
+		hint = strconv.FormatUint(in.evalT(v), 10)
+		if len(hint) != nd {
+			hint = ""
+		}
+	}
 	for i := 0; i < nd; i++ {
 		d := in.fresh("dig", BV(8))
+		in.ts.Ranges[d.ID] = [2]uint64{'0', '9'}
+		if hint != "" {
+			in.model[d.ID] = uint64(hint[i])
+		}
 		ds[i] = d
 		cs = append(cs, ts.Ule(in.byteConst('0'), d), ts.Ule(d, in.byteConst('9')))
-		acc = ts.Add(ts.Mul(acc, ts.Const(64, 10)), ts.Zext(ts.Sub(d, in.byteConst('0')), 64))
+		acc = ts.Add(ts.Mul(acc, ts.Const(w, 10)), ts.Zext(ts.Sub(d, in.byteConst('0')), w))
 	}
 	if nd > 1 {
 		cs = append(cs, ts.Not(ts.Eq(ds[0], in.byteConst('0'))))
 	}
-	cs = append(cs, ts.Eq(acc, v))
+	cs = append(cs, ts.Eq(ts.Zext(acc, 64), v))
 	in.assume(ts.And(cs...))
 	in.decProv[provKey(ds)] = v
 	return Str{ds}
